@@ -393,12 +393,17 @@ func (a *agg) add(res Result, jobs []Job) {
 	if res.Viol != nil {
 		a.viols = append(a.viols, res)
 	} else if res.Infra == "" && len(res.Trace) > 0 && len(a.samples) < 4 {
-		a.samples = append(a.samples, map[string]interface{}{"profile": res.Profile, "seed": res.Seed, "class": res.Class, "trace": res.Trace})
+		tr := res.Trace
+		if len(tr) > 80 {
+			tr = append(append([]string(nil), tr[:60]...), fmt.Sprintf("... (%d more events)", len(res.Trace)-60))
+		}
+		a.samples = append(a.samples, map[string]interface{}{"profile": res.Profile, "seed": res.Seed, "class": res.Class, "trace": tr})
 	}
 }
 
 // ReplayFile is the on-disk form of a minimised violation.
 type ReplayFile struct {
+	Confirmed  bool      `json:"reproduced_in_fresh_process"`
 	Property   string    `json:"property"`
 	Profile    string    `json:"profile"`
 	Tier       string    `json:"tier"`
@@ -485,7 +490,23 @@ func minimiseAndWrite(cfg CheckConfig, v Result) string {
 	} else {
 		best = vals
 	}
-	rf := ReplayFile{Property: cfg.Prop, Profile: v.Profile, Tier: cfg.Tier, BaseSeed: cfg.Base, RunSeed: v.Seed, Index: v.Index, Local: local,
+	// the replay file must reproduce in a fresh process: confirm it
+	confirmed := false
+	if !slow {
+		chk := SubprocRunner(cfg.Exe, cfg.Root, p, cfg.Tier, v.Seed, local, cfg.Hang)(best)
+		confirmed = chk.Viol != nil && chk.Viol.Kind == viol.Kind
+		if !confirmed && len(best) != len(vals) {
+			// fall back to the unminimised tape
+			chk = SubprocRunner(cfg.Exe, cfg.Root, p, cfg.Tier, v.Seed, local, cfg.Hang)(vals)
+			if chk.Viol != nil && chk.Viol.Kind == viol.Kind {
+				best, confirmed = vals, true
+				trace = chk.Trace
+			}
+		}
+	} else {
+		confirmed = res.Viol != nil && res.Viol.Kind == v.Viol.Kind
+	}
+	rf := ReplayFile{Confirmed: confirmed, Property: cfg.Prop, Profile: v.Profile, Tier: cfg.Tier, BaseSeed: cfg.Base, RunSeed: v.Seed, Index: v.Index, Local: local,
 		Violation: *viol, Tape: best, OrigDraws: v.Draws, Tries: tries, ReplayMode: "exact", Trace: trace}
 	if strings.HasPrefix(viol.Kind, "outputs-differ") && strings.Contains(viol.Detail, "repeat") {
 		rf.ReplayMode = "repeat-until-divergence"
